@@ -520,8 +520,8 @@ def compare_build(chk, scs, build, tag, oracle_fn, accept, what, distinct, mode=
             ref = same if same else (list(range(len(vs))) if all(v == v1 for v in vs) else [])
             if ref and all(mcomplete[k] for k in ref):
                 desc["model_trace_accepted_by_complete_oracle"] = True
-                chk.violation(f"{what}: a supervision event is missing (the at-least-once oracle rejects the implementation's settled trace and accepts the model's)",
-                              f"{chk.prop} at-least-once oracle rejects the implementation trace (a started child has ended, its supervisor is alive and idle, and has handled no terminal event about it)\n"
+                chk.violation(f"{what}: a supervision event is missing or a failing callback escaped the actor task (the settled-trace oracle rejects the implementation's settled trace and accepts the model's)",
+                              f"{chk.prop} settled-trace oracle rejects the implementation trace (a started child has ended, its supervisor is alive and idle, and has handled no terminal event about it; or an actor with a failed callback has no normally completed join handle)\n"
                               + json.dumps(desc, indent=1) + f"\nbuild: {tag}" + "\nreplay: echo '<scenario>' | harness/target/debug/eng_world\n")
                 continue
             chk.count(pre + ("complete_oracle_inapplicable" if ref else "complete_oracle_unjudged_order_sensitive"))
